@@ -630,9 +630,8 @@ def lookup_side(pc, key):
     side = 'hit'
     for a, val in strip_ids(tuple(pc)):
         if a[0] == 'caught' and a[1] == ('global', 'builtins.KeyError'):
-            if not val:
-                return None
-            side = 'miss'
+            if val:
+                side = 'miss'            # (not caught: the lookup went through - the hit side)
         elif a[0] == 'cmp' and a[1] == 'in' and a[2] == key:
             if not val:
                 side = 'miss'
@@ -965,3 +964,49 @@ def create_sa_orientation(ctx, rule):
                   key=(rule, 'crypt-esp'), site=site, detail={'condition': [tq.text(a[0]) + ('' if a[1] else ' is false') for a in ents['XFRMA_ALG_CRYPT'][0]]})
         ctx.check(not ents['XFRMA_ALG_AUTH'][0], rule, 'create_sa: the integrity algorithm is always attached', key=(rule, 'auth-always'),
                   site=site)
+
+
+DIGEST_SIZES = {'sha1': 20, 'sha256': 32, 'sha512': 64, 'md5': 16, 'sha384': 48}
+
+
+def digest_size_table(ctx, fi):
+    """{hash name: value} of a size property of a class that keeps its hash constructor in `self.hasher`, evaluated for each of the
+    three digests the code base supports: `self.hasher().digest_size`, a literal table of sizes read with `self.hasher`, another size
+    property of the same object - whatever form, the result per digest is what is compared.  None for a digest the term does not decide."""
+    from ..sval import strip_ids
+    from .. import tq
+    me = ('param', fi.self_name or 'self')
+
+    def value(f, h, depth=0):
+        sv = ctx.sval(f)
+        t = sv.ret()
+
+        def leaf(x):
+            x = strip_ids(x)
+            if x == ('attr', me, 'hasher'):
+                return ('H', h)
+            if x[0] == 'global' and x[1].startswith('hashlib.') and x[1].split('.')[-1] in DIGEST_SIZES:
+                return ('H', x[1].split('.')[-1])
+            if x[0] == 'attr' and x[2] == 'digest_size' and tq.is_call(x[1]):
+                callee = x[1][1]
+                if isinstance(callee, tuple) and callee[0] == 'dyn':
+                    hv = tq.teval(callee[1], leaf)
+                elif isinstance(callee, str) and callee.startswith('attrcall.') and callee.endswith('.hasher') and x[1][2] == me:
+                    hv = ('H', h)               # self.hasher(): the constructor kept in the attribute is called
+                elif isinstance(callee, str) and callee.startswith('hashlib.'):
+                    hv = ('H', callee.split('.')[-1])
+                else:
+                    raise tq.NoValue()
+                if isinstance(hv, tuple) and hv[0] == 'H' and hv[1] in DIGEST_SIZES and not x[1][3]:
+                    return DIGEST_SIZES[hv[1]]
+                raise tq.NoValue()
+            if x[0] == 'attr' and x[1] == me and depth < 3 and fi.cls is not None:
+                m = fi.cls.lookup(x[2])
+                if m is not None and getattr(m, 'is_property', False):
+                    return value(m, h, depth + 1)
+            raise tq.NoValue()
+        try:
+            return tq.teval(t, leaf)
+        except (tq.NoValue, Exception):
+            return None
+    return {h: value(fi, h) for h in ('sha1', 'sha256', 'sha512')}
